@@ -1176,7 +1176,7 @@ type RecursionExceededLimitError struct {
 }
 
 func NewRecursionExceededLimitError(selectEntity parser.QueryExpression, limit int64) error {
-	selectClause := searchSelectClauseInSelectEntity(selectEntity)
+	selectClause := searchSelectClauseInSelectSetEntity(selectEntity)
 
 	return &RecursionExceededLimitError{
 		NewBaseError(selectClause, fmt.Sprintf(ErrMsgRecursionExceededLimit, limit), ReturnCodeApplicationError, ErrorRecursionExceededLimit),
